@@ -235,7 +235,7 @@ theorem goodEntryG_of_goodEntry {e : TarEntry} (h : goodEntry e) : goodEntryG (f
     simp only [haf, Bool.false_eq_true, if_false]; exact h ht haf
 
 /-- every object a step creates is placed below a directory whose evaluated path was tested to be inside `D`
-(regular files, links — since fix <P6> —, directory entries, and every level `mkdirAllInside` makes) -/
+(regular files, links — since fix dccd4936 —, directory entries, and every level `mkdirAllInside` makes) -/
 theorem unpackStep_safe {good : Target → Prop} {D : Path} {s0 s : FS} (hS : SafeG good D s0 s) (e : TarEntry)
     (he : goodEntryG good e) : SafeG good D s0 (unpackStep D s e).state := by
   unfold unpackStep
